@@ -18,7 +18,8 @@ VERIF = os.path.dirname(os.path.dirname(os.path.abspath(__file__)))
 BUILD = os.path.join(VERIF, "build")
 CACHE = os.path.join(BUILD, "cache")
 NATIVE = os.path.join(VERIF, "native")
-KEEP_HASHES = 3
+KEEP_HASHES = 12      # other trees (scratch worktrees of seeded changes) may be under test at the same time
+KEEP_SECONDS = 3 * 3600
 
 SAN = "-fsanitize=address,undefined -fno-sanitize-recover=undefined -fno-omit-frame-pointer"
 
@@ -94,9 +95,19 @@ def _prune(keep):
     except FileNotFoundError:
         return
     ents.sort(key=lambda e: os.path.getmtime(os.path.join(CACHE, e)), reverse=True)
+    now = time.time()
     for e in ents[KEEP_HASHES:]:
-        if e != keep:
+        # never the tree being built, and nothing that a concurrent check may still be using
+        if e != keep and now - os.path.getmtime(os.path.join(CACHE, e)) > KEEP_SECONDS:
             shutil.rmtree(os.path.join(CACHE, e), ignore_errors=True)
+    live = set(ents)
+    for f in os.listdir(CACHE):
+        if f.endswith(".lock") and f.split(".")[0] not in live:
+            try:
+                if now - os.path.getmtime(os.path.join(CACHE, f)) > KEEP_SECONDS:
+                    os.unlink(os.path.join(CACHE, f))
+            except OSError:
+                pass
 
 
 _memo = {}
